@@ -1,6 +1,127 @@
 import DaskModel.DriverLib
+import DaskModel.Model.Slice1D
 open Dask
+open Dask.Slice1D
 
-def table : List (String × Handler) := []
+/-! Line-protocol handlers of group `slicing` (C20, C21, C26, C29). -/
 
-def main : IO Unit := runDriver table
+namespace SlicingDriver
+
+def toSlice? (e : SExp) : Option PSlice :=
+  match e with
+  | .list [a, b, c] => do
+    let a ← a.toOptInt?
+    let b ← b.toOptInt?
+    let c ← c.toOptInt?
+    pure ⟨a, b, c⟩
+  | _ => none
+
+def ofSlice (s : PSlice) : SExp := .list [SExp.ofOptInt s.start, SExp.ofOptInt s.stop, SExp.ofOptInt s.step]
+
+def raised : SExp := .list [.sym "raised"]
+def ok (xs : List SExp) : SExp := .list (.sym "ok" :: xs)
+
+def ofPlan (d : List (Nat × PSlice)) : SExp :=
+  .list (d.map fun (k, v) => .list [SExp.ofNat k, ofSlice v])
+
+/-- `(pyindices n (start stop step))` ↦ `(ok a b c)` | `(raised)` -/
+def hPyIndices : Handler := handler fun args =>
+  match args with
+  | [n, s] => do
+    let n ← n.toNat?
+    let s ← toSlice? s
+    match pyIndices n s with
+    | some (a, b, c) => pure (ok [.int a, .int b, .int c])
+    | none => pure raised
+  | _ => none
+
+/-- `(pyslice n (start stop step))` ↦ `(ok (positions…))` | `(raised)` -/
+def hPySlice : Handler := handler fun args =>
+  match args with
+  | [n, s] => do
+    let n ← n.toNat?
+    let s ← toSlice? s
+    match pySliceIdx n s with
+    | some ps => pure (ok [SExp.ofInts ps])
+    | none => pure raised
+  | _ => none
+
+/-- `(pymod a b)` -/
+def hPyMod : Handler := handler fun args =>
+  match args with
+  | [a, b] => do pure (.int (pyMod (← a.toInt?) (← b.toInt?)))
+  | _ => none
+
+/-- `(normslice (start stop step) dim)` ↦ `(ok (start stop step))` | `(raised)` -/
+def hNormSlice : Handler := handler fun args =>
+  match args with
+  | [s, n] => do
+    let n ← n.toNat?
+    let s ← toSlice? s
+    match normalizeSlice s n with
+    | some r => pure (ok [ofSlice r])
+    | none => pure raised
+  | _ => none
+
+/-- `(slice1d dim (lengths…) (start stop step))` ↦ `((k (slice)) …)` in insertion order -/
+def hSlice1d : Handler := handler fun args =>
+  match args with
+  | [n, ls, s] => do
+    let n ← n.toNat?
+    let ls ← ls.toNats?
+    let s ← toSlice? s
+    pure (ofPlan (slice1d n ls s))
+  | _ => none
+
+/-- `(slice1dint (lengths…) index)` ↦ `(ok i ind)` | `(raised)` -/
+def hSlice1dInt : Handler := handler fun args =>
+  match args with
+  | [ls, i] => do
+    let ls ← ls.toNats?
+    let i ← i.toInt?
+    match slice1dInt ls i with
+    | some (b, o) => pure (ok [SExp.ofNat b, .int o])
+    | none => pure raised
+  | _ => none
+
+/-- `(newblockdim dim (lengths…) (slice))` ↦ `(ok (sizes…))` | `(raised)` -/
+def hNewBlockdim : Handler := handler fun args =>
+  match args with
+  | [n, ls, s] => do
+    let n ← n.toNat?
+    let ls ← ls.toNats?
+    let s ← toSlice? s
+    match newBlockdim n ls s with
+    | some r => pure (ok [SExp.ofInts r])
+    | none => pure raised
+  | _ => none
+
+/-- `(planden (lengths…) (slice))`: normalise, plan, and list the global positions read, block by block
+    in output order ↦ `(ok (positions…) (slice))` | `(raised)` -/
+def hPlanDen : Handler := handler fun args =>
+  match args with
+  | [ls, s] => do
+    let ls ← ls.toNats?
+    let s ← toSlice? s
+    match normalizeSlice s ls.sum with
+    | some ns => pure (ok [SExp.ofInts (planDen ls ns (slice1d ls.sum ls ns)), ofSlice ns])
+    | none => pure raised
+  | _ => none
+
+/-- `(posify dim ind)` ↦ `(ok v)` | `(raised)` (IndexError from `check_index`) -/
+def hPosify : Handler := handler fun args =>
+  match args with
+  | [n, i] => do
+    let n ← n.toNat?
+    let i ← i.toInt?
+    if checkIntOOB n i then pure raised else pure (ok [.int (posifyInt n i)])
+  | _ => none
+
+def table : List (String × Handler) := [
+  ("pyindices", hPyIndices), ("pyslice", hPySlice), ("pymod", hPyMod), ("normslice", hNormSlice),
+  ("slice1d", hSlice1d), ("slice1dint", hSlice1dInt), ("newblockdim", hNewBlockdim),
+  ("planden", hPlanDen), ("posify", hPosify)]
+
+end SlicingDriver
+
+def main : IO Unit := runDriver SlicingDriver.table
